@@ -2671,6 +2671,10 @@ def catch(
             allowed_cache_results={CacheResult.SINGLE},
         )
         if cache_type != CacheResult.MISS:
+            # Record dataflow through the replayed expression:
+            #   cached_expr --> sexpr
+            # `expr` itself is not evaluated on this path, so it never learns its call_hash.
+            derive_expression(cached_expr, sexpr)
             return scheduler.evaluate(cached_expr, parent_job=parent_job).catch(promise_catch)
 
     return scheduler.evaluate(expr, parent_job=parent_job).then(on_success, promise_catch)
